@@ -124,7 +124,7 @@ def run_tlc(module, cfg=None, env=None, workers=None, timeout=600, heap="6g", si
     cfg = cfg or module
     md = tempfile.mkdtemp(prefix="md-", dir=scratch())
     e = dict(os.environ)
-    e["JAVA_TOOL_OPTIONS"] = "-Xss512m -Xmx%s" % heap
+    e["JAVA_TOOL_OPTIONS"] = "-Xss512m -Xmx%s -Djava.io.tmpdir=%s" % (heap, md)      # TLC leaves an empty tlc-<n> directory in its tmpdir
     if env:
         e.update({k: str(v) for k, v in env.items()})
     cmd = ["timeout", str(timeout), "tlc", "-workers", str(workers or NCPU), "-metadir", md,
@@ -458,6 +458,9 @@ def compare_render(vec, o, check_log=True):
                 {"status": ob["status"], "err": ob.get("err"), "out": show(bytes(ob["out"]))})
     if bytes(ob["out"]) != bytes(exp["out"]):
         return ("output differs", show(bytes(exp["out"])), show(bytes(ob["out"])))
+    if "buf_out" in ob and (bytes(ob["buf_out"]) != bytes(exp["out"]) or ob["buf_err"] != (exp["status"] == "err")):
+        return ("output differs when the writer is a *bytes.Buffer", show(bytes(exp["out"])),
+                {"out": show(bytes(ob["buf_out"])), "error": ob["buf_err"]})
     if check_log:
         a, b = normlog(exp.get("log")), normlog(ob.get("log"))
         if a != b:
